@@ -13,6 +13,7 @@
 #include "gm2calc/gm2_error.hpp"
 #include "MSSMNoFV/gm2_1loop_helpers.hpp"
 #include "MSSMNoFV/gm2_2loop_helpers.hpp"
+#include "thdm_terms.hpp"
 #include <cstdio>
 #include <iostream>
 #include <sstream>
@@ -66,6 +67,10 @@ static void dump_mssm_values(const std::string& cfg, const MSSMNoFV_onshell& m) 
 static void dump_thdm_values(const std::string& cfg, const THDM& m) {
    V(cfg, "amu1L", calculate_amu_1loop(m)); V(cfg, "amu2L", calculate_amu_2loop(m)); V(cfg, "amu2L_B", calculate_amu_2loop_bosonic(m)); V(cfg, "amu2L_F", calculate_amu_2loop_fermionic(m));
    V(cfg, "unc0", calculate_uncertainty_amu_0loop(m)); V(cfg, "unc1", calculate_uncertainty_amu_1loop(m)); V(cfg, "unc2", calculate_uncertainty_amu_2loop(m));
+   // sub-parts of the bosonic and fermionic two-loop contributions (helper boundary)
+   const auto pb = tt::fill_B(m); const auto pf = tt::fill_F(m);
+   V(cfg, "amu2L_B_EWadd", thdm::amu2L_B_EWadd(pb)); V(cfg, "amu2L_B_nonYuk", thdm::amu2L_B_nonYuk(pb)); V(cfg, "amu2L_B_Yuk", thdm::amu2L_B_Yuk(pb));
+   V(cfg, "amu2L_F_neutral", thdm::amu2L_F_neutral(pf)); V(cfg, "amu2L_F_charged", thdm::amu2L_F_charged(pf));
    std::printf("F %s have_problem %d\nF %s have_warning %d\n", cfg.c_str(), m.get_problems().have_problem(), cfg.c_str(), m.get_problems().have_warning());
 }
 
